@@ -1108,7 +1108,7 @@ class Exec:
         lo, hi, elem = self.iter_info(g.iter, st, node)
         clo, chi = conc_int(lo), conc_int(hi)
         if clo is None or chi is None:
-            raise Unsupported('comprehension over symbolic extent')
+            return self.symbolic_comprehension(node, g, lo, hi, elem, st)
         out = []
         saved = dict(st.env)
         for k in range(clo, chi):
@@ -1130,6 +1130,27 @@ class Exec:
         return st.alloc(self.c, PyList(out))
 
     ev_GeneratorExp = ev_ListComp
+
+    def symbolic_comprehension(self, node, g, lo, hi, elem, st):
+        """[expr(i) for i in <symbolic extent>] with scalar expr and no filter: the sequence k -> expr(k), obtained by
+        evaluating expr once for an arbitrary index q in range (obligations met on the way are for that arbitrary q)"""
+        if g.ifs:
+            raise Unsupported('filtered comprehension over symbolic extent')
+        q = self.c.fresh('ci')
+        s2 = st.fork()
+        lo_t, hi_t = to_int(lo), to_int(hi)
+        s2.assume(lo_t <= q, q < hi_t)
+        self.assign(g.target, elem(q, s2) if elem else q, s2, node)
+        mark = len(self.obls)
+        val = self.eval(node.elt, s2)
+        if isinstance(val, (Ref, tuple, str)) or val is None:
+            raise Unsupported('comprehension over symbolic extent with non-scalar elements')
+        n = z3.If(hi_t > lo_t, hi_t - lo_t, 0)
+        n = z3.simplify(hi_t - lo_t) if self.implied(st, hi_t >= lo_t) else n
+        if is_sym(val):
+            kind = 'int' if z3.is_int(val) else ('bool' if z3.is_bool(val) else 'real')
+            return st.alloc(self.c, Arr((n,), lambda ix, val=val, q=q, lo_t=lo_t: z3.substitute(val, (q, z3.simplify(to_int(ix[0]) + lo_t))), kind))
+        return st.alloc(self.c, Arr((n,), lambda ix, val=val: val, 'real' if isinstance(val, float) else 'int'))
 
     def ev_Lambda(self, node, st):
         return FuncV('lambda', node, env=st.env, mi=self.mi)
@@ -1162,6 +1183,33 @@ class Exec:
         raise Unsupported('unary %s' % type(node.op).__name__)
 
     def ev_BoolOp(self, node, st):
+        # value semantics of `a or b` / `a and b` when the truth of the operands is concrete (e.g. `x or {}`)
+        if all(not isinstance(e, (ast.Compare, ast.BoolOp, ast.UnaryOp)) for e in node.values[:-1]):
+            snapshot_obls = (len(self.obls), dict(self.counts))
+            cur = None
+            decided = True
+            for i, e in enumerate(node.values):
+                cur = self.eval(e, st)
+                if i == len(node.values) - 1:
+                    break
+                try:
+                    t = self.truth(cur, st)
+                except Unsupported:
+                    decided = False
+                    break
+                if t is True:
+                    if isinstance(node.op, ast.Or):
+                        break
+                elif t is False:
+                    if isinstance(node.op, ast.And):
+                        break
+                else:
+                    decided = False
+                    break
+            if decided:
+                return cur
+            del self.obls[snapshot_obls[0]:]
+            self.counts = snapshot_obls[1]
         vals = []
         pushed = 0
         try:
@@ -1318,6 +1366,10 @@ class Exec:
             return '<fmt>'
         if isinstance(a, tuple) and isinstance(b, tuple) and isinstance(op, ast.Add):
             return a + b
+        if isinstance(op, ast.Mult) and ((isinstance(a, Ref) and isinstance(st.get(a), PyList) and conc_int(b) is not None) or
+                                         (isinstance(b, Ref) and isinstance(st.get(b), PyList) and conc_int(a) is not None)):
+            lst, k = (st.get(a), conc_int(b)) if isinstance(a, Ref) else (st.get(b), conc_int(a))
+            return st.alloc(self.c, PyList(lst.items * max(k, 0)))
         if isinstance(a, Ref) and isinstance(b, Ref) and isinstance(op, ast.Add):
             ca, cb = st.get(a), st.get(b)
             if isinstance(ca, PyList) and isinstance(cb, PyList):
